@@ -182,6 +182,19 @@ def run_exact(chk: Check, cases, with_gen: bool):
                 if parse_num(gen_out[3 * i + 2]) != rv_:
                     chk.disagree("Gen.Aggr.ratio_var vs Aggregates.ratio_var",
                                  dict(input=inp, model=gen_out[3 * i + 2], impl=str(rv_)))
+            # the same on a SUM whose operands were asked for their own ratio statistics first (a sum is the aggregate of
+            # the concatenation, whatever was computed from its operands before)
+            B1, B2 = mk_real(*r["a1"]), mk_real(*r["a2"])
+            for B in (B1, B2):
+                real_call(lambda B=B: (B.ratio_var(ro[0], ro[1]), B.ratio_cov(*ro)))
+            stS, S = real_call(lambda: B1 + B2)
+            if stS == "ok":
+                stc, sc = real_call(lambda: S.ratio_cov(*ro))
+                stv, sv = real_call(lambda: S.ratio_var(ro[0], ro[1]))
+                if (stc, sc) != ("ok", r["lin_cov"]) or (stv, sv) != ("ok", r["lin_var"]):
+                    chk.fail("ratio_var / ratio_cov of a + b are not those of the concatenation when the ratio statistics "
+                             "of a and b were computed first (state carried from an operand into the sum)",
+                             dict(input=inp, observed=[str(sc), str(sv)], expected=[str(r["lin_cov"]), str(r["lin_var"])]))
             # special cases named by the property
             x = ro[0] or nm[0]
             y = ro[2] or nm[-1]
